@@ -848,7 +848,7 @@ pub fn explore<R>(cfg: &ExploreCfg, mut f: impl FnMut() -> R) -> (Vec<Path<R>>, 
         c.decisions = 0;
         c.prune_queries = 0;
         if cfg.prune && c.session.as_ref().map(|s| s.mode != cfg.mode).unwrap_or(true) {
-            c.session = Some(Session::new(cfg.mode, cfg.timeout_ms));
+            c.session = Some(if cfg.mode == Mode::O { Session::new_abs(cfg.timeout_ms) } else { Session::new(cfg.mode, cfg.timeout_ms) });
         }
         if let Some(s) = c.session.as_mut() {
             s.timeout_ms = cfg.timeout_ms;
